@@ -237,12 +237,24 @@ func runC16(c *core.Ctx) {
 				if ci, ok := in.(ssa.CallInstruction); ok && tableMethod(ci) == "Range" {
 					// the closure closes files
 					for _, a := range ci.Common().Args {
-						if mc, ok := a.(*ssa.MakeClosure); ok {
-							if f, ok := mc.Fn.(*ssa.Function); ok {
-								for _, bb := range f.Blocks {
-									for _, ii := range bb.Instrs {
-										if cl, ok := ii.(*ssa.Call); ok && cl.Common().IsInvoke() && cl.Common().Method.Name() == "Close" {
+						// the visitor: a function literal, a function value, or a bound method (whose wrapper calls the method)
+						var visitors []*ssa.Function
+						switch v := a.(type) {
+						case *ssa.MakeClosure:
+							if f, ok := v.Fn.(*ssa.Function); ok {
+								visitors = append(visitors, f)
+							}
+						case *ssa.Function:
+							visitors = append(visitors, v)
+						}
+						for i := 0; i < len(visitors) && i < 4; i++ {
+							for _, bb := range visitors[i].Blocks {
+								for _, ii := range bb.Instrs {
+									if cl, ok := ii.(*ssa.Call); ok {
+										if cl.Common().IsInvoke() && cl.Common().Method.Name() == "Close" {
 											ranges = true
+										} else if sc := cl.Common().StaticCallee(); sc != nil && sc.Blocks != nil && i == 0 {
+											visitors = append(visitors, sc)
 										}
 									}
 								}
